@@ -245,6 +245,16 @@ def check(ctx):
                                     eqc = [cc for cc in cp.conds if callee_is(cc[0], "PartialEq::eq") and cc[1] != 0]
                                     good = good and bool(eqc)
                                     detail = short(cp.ret, 6)
+                    elif len(direct) == 1 and callee_is(direct[0], "Iterator::find") and direct[0][3][1][0] == "agg" and direct[0][3][1][1] == "closure":
+                        # find(|(k, _)| *k == name): the predicate is the key equality itself - at most one entry satisfies it
+                        cps = [cp for cp in (closure_paths(ctx, direct[0][3][1]) or []) if cp.end != "unreachable"]
+                        good = len(cps) == 1 and cps[0].end == "return" and callee_is(cps[0].ret, "PartialEq::eq") and len(cps[0].ret[3]) == 2
+                        if good:
+                            sides = [peel(a, ()) for a in cps[0].ret[3]]
+                            is_key = lambda a: a[0] == "field" and a[2] == 0 and peel(a[1], ())[:2] == ("cparam", 2)
+                            invariant = lambda a: not any(y[0] == "cparam" for y in subexprs(a))
+                            good = (is_key(sides[0]) and invariant(sides[1])) or (is_key(sides[1]) and invariant(sides[0]))
+                            detail = short(cps[0].ret, 6)
                     else:
                         detail = "consumers: " + ", ".join(short(d, 2) for d in direct)
         ctx.check(good, "R16.3", "with_input/find_map-with-key-equality", detail, f.at(),
